@@ -214,7 +214,7 @@ func faultClass(f *FaultSpec) string {
 }
 
 func checkC02(p *Prepared, f *FaultSpec, x *vrt.Exec, o *Outcome) {
-	rp := replayT{Mode: "c02", Case: p.Case, Choices: append([]int{}, x.Choices()...), Extra: vlib.JSON(f)}
+	rp := replayT{Mode: "c02", Case: p.Case, Choices: append([]int{}, x.Choices()...), Extra: vlib.JSON(f)}.withCfg(x)
 	fc := faultClass(f)
 	switch x.Outcome {
 	case "ok":
